@@ -1,6 +1,7 @@
 add("C02", "exploration",
     "Generated raw HTTP/1.1 requests (grammar over method, escaped/unclean targets, queries, repeated and long header fields (names that merely resemble hop-by-hop fields included), "
-    "hop-by-hop fields, Content-Length and chunked bodies up to MiBs; usually one at a time, sometimes 2-6 at once) are sent through the real server and agent binaries; a "
+    "hop-by-hop fields, Content-Length and chunked bodies up to MiBs; usually one at a time, sometimes 2-6 at once) are sent through the real server and agent binaries (a quarter of the cases through an agent with session tracking, "
+    "websocket shim and banner enabled, with cookie-less requests outside the shim path); a "
     "recording raw-TCP backend compares request line, Host, every end-to-end field's ordered values and the body byte for byte. "
     "Sampling, not proof: the input space is unbounded.",
     "Trusts the harness's own raw parser/serialiser and that net/http semantics of the pinned Go toolchain are the deployment's. "
